@@ -203,7 +203,7 @@ def run(tier, seed):
     for c in cases:
         if c["ar"] == 1 and c["form"] not in ("while", "scanwhile") and source(c) not in bad_src and c["f"]["k"] in ("op", "lam"):
             groups.setdefault((c["form"], json.dumps(c["f"], sort_keys=True)), []).append(c)
-    nrebop = 0
+    nrebop = nfun = 0
     for (form, _), cs in sorted(groups.items()):
         seen_ops, uniq = set(), []
         for c in cs:
@@ -214,15 +214,26 @@ def run(tier, seed):
         if len(uniq) < 2:
             continue
         uniq = uniq[:8]
-        K(f"hf::{{[t];t::{vtext(uniq[0]['f'])}{ADV[form]}w;t}}")
-        for c in uniq + uniq[::-1]:
-            K(f"w::{ops[json.dumps(c['a'], sort_keys=True)][0]}")
-            got, exc = ev1("hf()")
-            nrebop += 1
-            if not canon.same(c["exp"], got):
-                report(c, f"hf::{{[t];t::{vtext(c['f'])}{ADV[form]}w;t}};w::{canon.render(c['a'])};hf()",
-                       "(the function was called before with w holding operands of other shapes)", got, exc, "operand-rebound")
-                break
+        # every ordered pair of operands, each with a function defined afresh: what is decided at the first evaluation (from the
+        # first operand) must not be applied to the second
+        failed = False
+        for c1 in uniq:
+            for c2 in uniq:
+                if c1 is c2 or failed:
+                    continue
+                # (a local of another name each time: the same text would be served from the interpreter's cache of parsed programs,
+                # with whatever its nodes remember)
+                nfun += 1
+                K(f"hf::{{[t{nfun}];t{nfun}::{vtext(uniq[0]['f'])}{ADV[form]}w;t{nfun}}}")
+                for c in (c1, c2):
+                    K(f"w::{ops[json.dumps(c['a'], sort_keys=True)][0]}")
+                    got, exc = ev1("hf()")
+                    nrebop += 1
+                    if not canon.same(c["exp"], got):
+                        report(c, f"hf::{{[t];t::{vtext(c['f'])}{ADV[form]}w;t}};w::{canon.render(c['a'])};hf()",
+                               f"(the function was first called with w::{canon.render(c1['a'])})" if c is c2 else "(first call)", got, exc, "operand-rebound")
+                        failed = True
+                        break
     ev.cov["operand_rebinding_evaluations"] = nrebop
     for key in order:
         name, o = ops[key]
